@@ -11,9 +11,9 @@
      H_footprint             the clockwise ring encloses the footprint (area below a hemisphere, equal to the
                              footprint's area up to discretisation, interior pixel centres inside, far points outside)
      H_geos_intersection     shapely returns the vertices of (extent /\ Earth disk polygon) *)
-From Coq Require Import Reals ZArith List Lia Bool.
+From Coq Require Import Reals ZArith List Lia Bool Sorted.
 From PR Require Import Base.Num Base.RNum Base.F64 Model.Boundary
-     Gen.GenC16 Proofs.C16_idx Proofs.C16_ring Proofs.C16_f64 Proofs.C16_geos Proofs.C16_gen.
+     Gen.GenC16 Proofs.C16_idx Proofs.C16_ring Proofs.C16_f64 Proofs.C16_geos Proofs.C16_gen Proofs.C16_legacy Proofs.C16_decimate.
 Import ListNotations.
 Open Scope Z_scope.
 
@@ -167,3 +167,41 @@ Proof. intros A. exact (@geos_ring A). Qed.
 Print Assumptions C16_geos_ring_is_intersection.
 Example C16_geos_ex : geos_sides [0; 1; 2; 3; 4] = [[0; 1]; [1; 2]; [2; 3; 4]; [4; 0]].
 Proof. reflexivity. Qed.
+
+(* ------------------------------------------------------------------ alternative entry points *)
+(* vertices_per_side=None and the legacy get_boundary_lonlats give the four COMPLETE sides; every edge pixel is a vertex
+   of that ring; any vertices_per_side >= both side lengths gives the same ring *)
+Theorem C16_full_ring : forall h w, 2 <= h -> 2 <= w ->
+  r_sides h w None = full_sides h w
+  /\ (forall p, on_edge h w p -> In p (contour (r_sides h w None)))
+  /\ (forall v, h <= v -> w <= v -> r_sides h w (Some v) = r_sides h w None).
+Proof.
+  intros h w Hh Hw. rewrite r_sides_eq by (cbn; auto). split; [apply full_sides_are_vps_none; assumption|]. split.
+  - intros p Hp. apply full_ring_covers_edge; assumption.
+  - intros v Hhv Hwv. rewrite r_sides_eq by (cbn; lia). apply vps_beyond_sides_is_full; assumption.
+Qed.
+Print Assumptions C16_full_ring.
+Example C16_full_ex : full_sides 2 3 = [[(0, 0); (0, 1); (0, 2)]; [(0, 2); (1, 2)]; [(1, 2); (1, 1); (1, 0)]; [(1, 0); (0, 0)]].
+Proof. reflexivity. Qed.
+
+(* AreaBoundary.decimate(ratio) (the legacy AreaDefBoundary(area, frequency)): on a side of L >= 2 vertices the kept
+   positions start at 0, end at L-1 and are strictly increasing, for every ratio >= 1 *)
+Theorem C16_decimate_positions : forall L ratio, 2 <= L -> 1 <= ratio ->
+  hd_error (decimate_idx L ratio) = Some 0 /\ last_opt (decimate_idx L ratio) = Some (L - 1)
+  /\ StronglySorted Z.lt (decimate_idx L ratio).
+Proof. exact decimate_idx_spec. Qed.
+Print Assumptions C16_decimate_positions.
+Example C16_decimate_ex : decimate_idx 12 3 = [0; 3; 6; 9; 11] /\ decimate_idx 9 4 = [0; 4; 8] /\ decimate_idx 7 10 = [0; 3; 6].
+Proof. repeat split. Qed.
+
+(* hence a decimated ring is still closed, and a side without repeated vertices stays so and keeps only its own vertices *)
+Theorem C16_decimate_keeps_ring : forall (A : Type) (d : A) ratio (S : list (list A)), 1 <= ratio ->
+  closed4 S -> Forall (fun s => (2 <= length s)%nat) S ->
+  closed4 (decimate_sides d ratio S)
+  /\ Forall (fun s => NoDup s -> NoDup (select d s (decimate_idx (Z.of_nat (length s)) ratio))
+                                /\ incl (select d s (decimate_idx (Z.of_nat (length s)) ratio)) s) S.
+Proof.
+  intros A d ratio S Hr Hc Hl. split; [apply decimate_keeps_closed; assumption|].
+  apply Forall_forall. intros s Hs Hn. rewrite Forall_forall in Hl. apply decimate_side_no_repeat; auto.
+Qed.
+Print Assumptions C16_decimate_keeps_ring.
